@@ -61,9 +61,10 @@ def why_key(why):
 
 # ------------------------------------------------------------------------------------------------ explorer
 
-def consts(nf, dops, polls, rops, held, mind=0, mut="none"):
+def consts(nf, dops, polls, rops, held, mind=0, mut="none", hist=False):
     return ("NF = %d  MaxF = %d  MaxT = 2  Remotes = {1, 2}  Parents = {1, 2}  MaxDOps = %d  MinDOps = %d  MaxPolls = %d  "
-            "MaxROps = %d  MaxHeld = %d  Mut = \"%s\"" % (nf, nf, dops, mind, polls, rops, held, mut))
+            "MaxROps = %d  MaxHeld = %d  Mut = \"%s\"  RecordHist = %s" % (nf, nf, dops, mind, polls, rops, held, mut,
+                                                                         "TRUE" if hist else "FALSE"))
 
 
 def write_cfg(path, c, invariants, view=True, props=None, spec="Spec"):
@@ -77,10 +78,17 @@ def write_cfg(path, c, invariants, view=True, props=None, spec="Spec"):
         f.write("CHECK_DEADLOCK FALSE\n")
 
 
-def explore(run, wd, name, c, workers=8, timeout=1500, coverage=False, xmx="8g"):
+def explore(run, wd, name, c, workers=8, timeout=1500, coverage=False, xmx="8g", live=False):
+    """Exhaustive run without the history variable; on a violation the run is repeated with the history recorded
+    (hidden from the fingerprint by VIEW) so that the violating behaviour can be exported and replayed."""
     cfg = os.path.join(wd, name + ".cfg")
-    write_cfg(cfg, c, ["TypeOK", "JudgeOkP", "EndOkP", "RcExact"])
+    write_cfg(cfg, c, ["TypeOK", "JudgeOkP", "EndOkP", "RcExact"], view=False, spec="FairSpec" if live else "Spec",
+              props=["Terminates"] if live else None)
     r = tlc(D, "MC_FutureDeque", cfg=cfg, workers=workers, timeout=timeout, coverage=coverage, xmx=xmx)
+    if r.violation and r.violation.startswith("invariant"):
+        write_cfg(cfg, c.replace("RecordHist = FALSE", "RecordHist = TRUE"), ["TypeOK", "JudgeOkP", "EndOkP", "RcExact"], view=True)
+        r2 = tlc(D, "MC_FutureDeque", cfg=cfg, workers=workers, timeout=timeout, xmx=xmx)
+        r.out += "\n" + "\n".join(l for l in r2.out.splitlines() if l.startswith('<<"CEX"'))
     if run is not None:
         run.add_tlc("FutureDeque explorer %s (%s)" % (name, re.sub(r"\s+", " ", c)), r)
         for a in MUT_ONLY_ACTIONS:
@@ -116,7 +124,7 @@ def hist_to_stim(i, hist, variant, strategy="script"):
 
 def simulate(run, wd, name, c, num, workers, seed, timeout=600):
     cfg = os.path.join(wd, name + ".cfg")
-    write_cfg(cfg, c, ["JudgeOkP", "EndOkP", "GenBeh"], view=False)
+    write_cfg(cfg, c.replace("RecordHist = FALSE", "RecordHist = TRUE"), ["JudgeOkP", "EndOkP", "GenBeh"], view=False)
     r = tlc(D, "MC_FutureDeque", cfg=cfg, workers=workers, timeout=timeout, simulate=num, depth=400, seed=seed)
     if r.error:
         raise vlib.ToolError("simulation failed: %s\n%s" % (r.error, r.out[-2000:]))
@@ -214,6 +222,8 @@ def scenario_stats(runs, st):
                     st["remote_wake_found_flag_set" if r["obs"] == 1 else "remote_wake_set_flag"] += 1
                 if r["wr"] == 1 and r["task"] == 0:
                     st["self_wake"] += 1
+                if r["wr"] == 1 and r["obs"] == 0:
+                    st["activations_0_to_1"] += 1
                 if r["wr"] == 0:
                     st["check_activated_true" if r["obs"] == 1 else "check_activated_false"] += 1
             elif ev == "pwake":
@@ -266,16 +276,137 @@ def ordering_table(runs):
     return table, unknown
 
 
+# ------------------------------------------------------------------------------------------------ trace-level RC11
+
+RC_OPS = {"fadd": "fetch_add", "fsub": "fetch_sub", "swap": "swap", "load": "load", "store": "store"}
+PM_LOC = 13
+
+
+def _rc(ev, task=0, obj=0, loc=0, op="none", ord_="rlx", ordf="rlx", obs=0, wr=0, part="none", acc="r", outcome="none", run=0):
+    return {"ev": ev, "task": task, "obj": obj, "loc": loc, "op": op, "ord": ord_, "ordf": ordf, "obs": obs, "wr": wr,
+            "part": part, "acc": acc, "outcome": outcome, "pool_len": -1, "run": run}
+
+
+def rc11_records(rid, stim, recs):
+    """One recorded run -> events of spec/lib/TraceRC11 (see spec/fdeque/Trace_WakerRC11.tla)."""
+    out = [_rc("reset", run=rid)]
+    wop = {}                    # task -> (op, f) waker operation in progress
+    polling = None              # (f, k) future being polled by task 0
+    wrote = set()               # (t, f): remote t published its data for f
+    since_check = {}            # f -> remote tasks whose wake swap came after the last check_activated of f
+    toread = {}                 # f -> remote tasks whose data the next poll of f reads
+    for r in recs:
+        ev, t = r["ev"], r.get("task", 0)
+        if t > 3 or r.get("f", 0) > 4:
+            return None
+        if ev == "meta_create":
+            f = r["f"]
+            out.append(_rc("created", t, f, 4 + f))
+            out.append(_rc("atomic", t, f, 4 + f, "store", "rlx", wr=1))     # ref_count: AtomicUsize::new(1)
+            out.append(_rc("atomic", t, f, 8 + f, "store", "rlx", wr=1))     # activated: AtomicUsize::new(1)
+        elif ev == "meta_free":
+            out.append(_rc("release", t, r["f"]))
+        elif ev == "winv":
+            wop[t] = (r["op"], r["f"])
+            if t != 0:
+                out.append(_rc("atomic", t, 0, PM_LOC + t, "load", "acq", obs=1))      # took the waker out of its mailbox
+                if r["op"] in ("wake", "wake_by_ref") and (t, r["f"]) not in wrote:
+                    wrote.add((t, r["f"]))
+                    out.append(_rc("cell", t, r["f"], part="data%d" % t, acc="w"))   # publish, then wake
+        elif ev == "wres":
+            wop.pop(t, None)
+            if t == 0 and r["op"] == "clone" and polling:
+                beh = (stim.get("fut", {}).get(str(polling[0])) or [])
+                b = beh[polling[1] - 1] if polling[1] - 1 < len(beh) else "silent"
+                if b.startswith("hand") and 1 <= int(b[4:]) <= 3:
+                    out.append(_rc("atomic", 0, 0, PM_LOC + int(b[4:]), "store", "rel", wr=1))   # the clone is handed over
+        elif ev == "fpoll":
+            polling = (r["f"], r["k"])
+            for u in sorted(toread.pop(r["f"], set())):
+                out.append(_rc("cell", 0, r["f"], part="data%d" % u, acc="r"))
+        elif ev == "fres":
+            polling = None
+        elif ev == "step":
+            f, fld, k = r["f"], r["fld"], r["k"]
+            if fld == "parent":
+                ctx = wop.get(t)
+                obj = ctx[1] if ctx and ctx[0] in ("wake", "wake_by_ref") else 0    # meta.shared_parent is read in wake
+                if k == "lock":
+                    out.append(_rc("atomic", t, obj, PM_LOC, "swap", "acq", obs=0, wr=1))
+                elif k == "unlock":
+                    out.append(_rc("atomic", t, 0, PM_LOC, "store", "rel", wr=0))
+            elif fld in ("rc", "act") and 1 <= f <= 4:
+                loc = (4 if fld == "rc" else 8) + f
+                if k == "cas":
+                    op = "cas_ok" if r["wr"] >= 0 else "cas_fail"
+                else:
+                    op = RC_OPS.get(k)
+                if op is None:
+                    return None
+                out.append(_rc("atomic", t, f, loc, op, r["ord"], r["ford"] if r["ford"] != "none" else "rlx",
+                               obs=r["obs"], wr=max(r["wr"], 0)))
+                if fld == "act" and k == "swap":
+                    if r["wr"] == 1 and t != 0:
+                        since_check.setdefault(f, set()).add(t)
+                    elif r["wr"] == 0:
+                        seen = since_check.pop(f, set())
+                        if r["obs"] == 1:
+                            toread[f] = {u for u in seen if (u, f) in wrote}
+        elif ev == "end":
+            out.append(_rc("end", outcome=r["outcome"]))
+    return out
+
+
+def rc_why_key(rj):
+    why, rec = rj.get("why", ""), rj.get("rec", {})
+    if why.startswith("data race"):
+        loc = rec.get("loc", 0)
+        what = {"atomic": "%s.%s" % ("rc" if 5 <= loc <= 8 else "act" if 9 <= loc <= 12 else "parent" if loc == PM_LOC else "box", rec.get("op")),
+                "cell": "data-%s" % ("read" if rec.get("acc") == "r" else "write"), "release": "free"}.get(rec.get("ev"), rec.get("ev"))
+        return "rc11trace:race:" + what
+    return "rc11trace:" + re.sub(r"[^a-z0-9]+", "-", why.lower())[:50]
+
+
+def judge_rc11(run, wd, name, runs, by_id):
+    out, skipped = [], 0
+    for rid in sorted(runs):
+        rr = rc11_records(rid, by_id.get(rid, {}), runs[rid])
+        if rr is None:
+            skipped += 1
+        else:
+            out += rr
+    path = os.path.join(wd, name + ".rc11.ndjson")
+    write_ndjson(path, out)
+    ok, rejects, tr = validate_trace(D, "Trace_WakerRC11", path, cfg="Trace_WakerRC11.cfg", timeout=3000, deque=False)
+    run.add_tlc("Trace_WakerRC11 " + name, tr, count_states=False)
+    run.cov["rc11_trace_events"] = run.cov.get("rc11_trace_events", 0) + len(out)
+    if skipped:
+        run.cov["rc11_trace_runs_skipped"] = run.cov.get("rc11_trace_runs_skipped", 0) + skipped
+    for rj in rejects:
+        if "line" not in rj:
+            raise vlib.ToolError("RC11 trace not consumed: %s" % json.dumps(rj)[:500])
+        if rj.get("why", "").startswith("recording is not sequentially consistent"):
+            raise vlib.ToolError("recorded trace is not SC: %s" % json.dumps(rj)[:400])
+        rid = next((out[i]["run"] for i in range(min(rj["line"], len(out)) - 1, -1, -1) if out[i]["ev"] == "reset"), None)
+        stim = dict(by_id.get(rid, {}))
+        run.violation(rc_why_key(rj), "TraceRC11 rejects recorded run %s: %s at %s" % (rid, rj.get("why"), json.dumps(rj.get("rec"))[:200]),
+                      {"stimulus": stim, "why": rj.get("why"), "record": rj.get("rec"), "trace": runs.get(rid, [])[:400], "layer": "rc11trace"})
+
+
 class Judged:
     def __init__(self):
         self.runs = 0
         self.records = 0
         self.drifted = 0
         self.stats = {}
+        self.nontrivial = set()
 
 
-def judge(run, wd, name, stims, acc, tables):
-    """Runs the harness on stims, validates the trace with TLC, reports rejections as violations."""
+def judge(run, wd, name, stims, acc, tables, extra=None):
+    """Runs the harness on stims, validates the trace with TLC (API-level judge and trace-level RC11, in parallel with
+    `extra(table, unknown)` if given), reports rejections as violations."""
+    from collections import Counter
+    from concurrent.futures import ThreadPoolExecutor
     tp, sums, crashed = run_harness(wd, name, stims)
     by_id = {s["id"]: s for s in stims}
     sum_by_id = {s["id"]: s for s in sums}
@@ -284,19 +415,31 @@ def judge(run, wd, name, stims, acc, tables):
                       {"stimulus": crashed["at"], "stderr": crashed["stderr"]})
     recs = read_ndjson(tp) if os.path.exists(tp) else []
     if not recs:
-        return
-    ok, rejects, tr = validate_trace(D, "Trace_FutureDeque", tp, cfg="Trace_FutureDeque.cfg", timeout=3000)
-    run.add_tlc("Trace_FutureDeque " + name, tr, count_states=False)
+        return sums
     runs = split_runs(recs)
+    tab = ordering_table(runs)
+    tables.append(tab)
+    with ThreadPoolExecutor(3) as ex:
+        f1 = ex.submit(validate_trace, D, "Trace_FutureDeque", tp, "Trace_FutureDeque.cfg", 3000)
+        f2 = ex.submit(judge_rc11, run, wd, name, runs, by_id)
+        f3 = ex.submit(extra, *merge_tables([tab])) if extra else None
+        ok, rejects, tr = f1.result()
+        f2.result()
+        if f3:
+            f3.result()
+    run.add_tlc("Trace_FutureDeque " + name, tr, count_states=False)
     acc.runs += len(runs)
     acc.records += len(recs)
     acc.drifted += sum(1 for s in sums if s["drift"] > 0)
-    from collections import Counter
     st = Counter()
     scenario_stats(runs, st)
     for k, v in st.items():
         acc.stats[k] = acc.stats.get(k, 0) + v
-    tables.append(ordering_table(runs))
+    for rid, rr in runs.items():
+        # non-trivial: a contained future was polled AND a waker of it was woken (by itself or remotely)
+        if rid in by_id and any(r["ev"] == "fpoll" for r in rr) and \
+                any(r["ev"] == "winv" and r["op"] in ("wake", "wake_by_ref") for r in rr):
+            acc.nontrivial.add(stim_signature(by_id[rid]))
     if runs:
         rid = sorted(runs)[len(runs) // 2]
         run.sample({"stimulus": {k: by_id[rid][k] for k in ("dops", "fut", "rops", "strategy") if rid in by_id},
@@ -331,6 +474,7 @@ def wmm(run, wd, table, unknown, thorough):
     """RC11 run of WakerMeta with the orderings the code actually used."""
     tab_out = {k: sorted(v) for k, v in table.items()}
     run.cov["ordering_table"] = tab_out
+    run.cov["exhaustive"] = True
     if unknown:
         run.cov["ordering_table_unknown_sites"] = unknown
         run.cov["exhaustive"] = False
@@ -372,29 +516,37 @@ def check(run):
     wd = workdir(PID, clean=True)
     acc, tables = Judged(), []
 
-    # (1) explorer against the judge, all interleavings in the bounds
+    # (1) explorer against the judge, all interleavings in the bounds; (2) generator; run side by side
+    from concurrent.futures import ThreadPoolExecutor
     cex_stims = []
     configs = [("E0", consts(1, 4, 2, 1, 1)), ("E1", consts(2, 3, 2, 2, 1))]
+    sims = [("sim", consts(3, 6, 3, 3, 2, mind=3), 40, 6, run.seed % 100000)]
     if thorough:
-        configs = [("E0", consts(1, 5, 3, 2, 2)), ("E1", consts(2, 4, 2, 2, 2)), ("E2", consts(3, 4, 2, 1, 1))]
+        configs = [("E0", consts(1, 5, 3, 2, 1)), ("E1", consts(2, 4, 2, 2, 2)), ("E2", consts(3, 4, 2, 1, 1))]
+        sims = [("sim", consts(3, 6, 3, 3, 2, mind=4), 150, 8, run.seed % 100000),
+                ("sim2", consts(2, 5, 3, 2, 2, mind=3), 100, 4, run.seed % 100000 + 1)]
     model_cex = None
-    for i, (name, c) in enumerate(configs):
-        r = explore(run, wd, name, c, workers=10 if thorough else 8, coverage=(thorough and i == 2), xmx="12g")
-        if r.error:
-            raise vlib.ToolError("explorer %s: %s" % (name, r.error))
-        if r.violation:
-            model_cex = (name, r)
-            for s in tlc_prints(r.out, "CEX"):
-                cex_stims.append(hist_to_stim(900000 + len(cex_stims), json.loads(s), "send"))
-            break
+    behs = []
+    with ThreadPoolExecutor(3 if thorough else 4) as ex:
+        efs = [(name, ex.submit(explore, run, wd, name, c, 6 if thorough else 5, 3000, False, "10g")) for name, c in configs]
+        if thorough:
+            # liveness under weak fairness (every behaviour ends with everything dropped and released) + action coverage
+            efs.append(("L", ex.submit(explore, run, wd, "L", consts(2, 3, 2, 2, 2), 4, 3000, True, "8g", True)))
+        sfs = [ex.submit(simulate, run, wd, n_, c, num, w, sd) for n_, c, num, w, sd in sims]
+        for name, f in efs:
+            r = f.result()
+            if r.error:
+                raise vlib.ToolError("explorer %s: %s" % (name, r.error))
+            if r.violation and name == "L" and not r.violation.startswith("invariant"):
+                raise vlib.ToolError("liveness Terminates violated in the model: %s\n%s" % (r.violation, r.cex[:2000]))
+            if r.violation and model_cex is None:
+                model_cex = (name, r)
+                for s in tlc_prints(r.out, "CEX"):
+                    cex_stims.append(hist_to_stim(900000 + len(cex_stims), json.loads(s), "send"))
+        for f in sfs:
+            behs += f.result()[1]
 
     # (2) spec -> code: behaviours of the explorer (TLC -simulate) become stimulus + schedule for the real crate
-    behs = []
-    if thorough:
-        behs += simulate(run, wd, "sim", consts(3, 6, 3, 3, 2, mind=4), 250, 8, run.seed % 100000)[1]
-        behs += simulate(run, wd, "sim2", consts(2, 5, 3, 2, 2, mind=3), 150, 4, run.seed % 100000 + 1)[1]
-    else:
-        behs += simulate(run, wd, "sim", consts(3, 6, 3, 3, 2, mind=3), 50, 6, run.seed % 100000)[1]
     stims, seen = [], set()
     for b in behs:
         s = hist_to_stim(len(stims) + 1, b, ["send", "local"][len(stims) % 2])
@@ -404,34 +556,35 @@ def check(run):
             stims.append(s)
     # (3) code -> spec: seeded random stimuli under seeded random / PCT schedules
     rng = random.Random(run.seed)
-    n = 2500 if thorough else 300
+    n = 1500 if thorough else 250
     rstims = [random_stimulus(rng, 100000 + i) for i in range(n)]
     for s in rstims:
         seen.add(stim_signature(s))
     # one harness process and one TLC validation run for both directions (JVM start-up dominates small runs)
-    sums = judge(run, wd, "runs", stims + rstims, acc, tables) or []
+    # (4) weak memory, alongside: WakerMeta through RC11 with the ordering table measured from these very runs
+    sums = judge(run, wd, "runs", stims + rstims, acc, tables, extra=lambda t, u: wmm(run, wd, t, u, thorough)) or []
     replay_drift = sum(1 for s in sums if s["id"] < 100000 and s["drift"] > 0)
 
     # a counterexample of the explorer must be reproduced by the real code, otherwise it is a modelling error
     if model_cex:
-        before = len(run.violations) + len(run.known_hits)
         if cex_stims:
             judge(run, wd, "cex", cex_stims[:20], acc, tables)
-        if len(run.violations) + len(run.known_hits) == before:
+        if len(run.violations) + len(run.known_hits) == 0:
             raise vlib.ToolError("explorer %s reports %s but the real code does not reproduce it (model drift)\n%s"
                                  % (model_cex[0], model_cex[1].violation, model_cex[1].cex[:3000]))
 
-    # (4) weak memory: WakerMeta through RC11 with the measured ordering table
-    run.cov["exhaustive"] = (replay_drift == 0)
-    table, unknown = merge_tables(tables)
-    wmm(run, wd, table, unknown, thorough)
+    if replay_drift > 0:
+        run.cov["exhaustive"] = False
 
     run.cov["traces_validated_against_impl"] = acc.runs
     run.cov["evaluations"] = acc.records
-    run.cov["distinct_nontrivial"] = len(seen)
+    run.cov["distinct_nontrivial"] = len(acc.nontrivial)
+    run.cov["distinct_stimuli"] = len(seen)
     run.cov["replayed_behaviours"] = len(stims)
     run.cov["replay_drifted_runs"] = replay_drift
     run.cov["scenarios_on_real_code"] = acc.stats
+    # implementation fact, not a verdict of the judge (which allows more parent wakes than necessary)
+    run.cov["parent_woken_exactly_once_per_activation"] = acc.stats.get("parent_wakes", 0) == acc.stats.get("activations_0_to_1", 0)
     wanted = ["remote_wake_found_flag_set", "remote_wake_set_flag", "stale_parent_woken_after_parent_change",
               "meta_freed_by_remote", "remote_wake_after_deque_drop", "repolls", "check_activated_false",
               "remote_wake_started_during_deque_poll", "parent_replaced"]
@@ -445,7 +598,8 @@ def check(run):
                        "seeded random stimuli ran under seeded random/PCT schedules; every run (popped values, polls per future, "
                        "parent wakes, drops, metadata create/free, every atomic step) was judged by FutureDequeAbs in TLC; "
                        "WakerMeta was model-checked through RC11 with the orderings extracted from those step logs; "
-                       "distinct = distinct stimuli (operations, future scripts, remote programs, schedule)" % (len(stims), replay_drift, n))
+                       "distinct_nontrivial = distinct stimuli (operations, future scripts, remote programs, schedule) in whose run a contained "
+                       "future was polled and one of its wakers was woken" % (len(stims), replay_drift, n))
     run.assume("the deterministic scheduler serialises the real threads at the scheduling points of hook H8; between two points a "
                "thread runs alone (critical sections of the parent mutex contain no scheduling point)")
     run.assume("weak-memory behaviour is decided on the RC11 model (no load buffering, no SC fences), never observed")
@@ -545,11 +699,45 @@ def selftest():
             [dict(r, k=r["k"] + 1) if (r["ev"] == "fpoll" and r["f"] == 2) else r for r in rs[i + 1:]]
 
     variant("popped-value-changed", change_popped, "order:")
-    variant("remote-parent-wake-deleted", delete_pwake, "wake lost: parent")
     variant("last-free-deleted", delete_free, "metadata")
     variant("free-before-last-drop", swap_free_before_last_drop, "metadata freed while")
     variant("future-dropped-twice", double_fdrop, "future dropped twice")
     variant("spurious-poll-inserted", extra_poll, "future polled although")
+
+    # a hand-written schedule: the remote wake comes after the last deque poll, so only the parent wake-up keeps the
+    # deque's task alive; without it the trace must be rejected
+    stim2 = {"id": 2, "variant": "local", "dops": [{"op": "push_back", "f": 1}, {"op": "poll", "p": 1}, {"op": "pop_front"}, {"op": "drop"}],
+             "fut": {"1": ["hand1"]}, "rops": [[{"op": "wake_by_ref", "f": 1}], []], "strategy": "script", "seed": 1,
+             "sched": [[0, "start"], [1, "start"], [2, "start"], [0, "dop"], [0, "rc.fadd"], [0, "dop"], [0, "parent.lock"],
+                       [0, "act.swap"], [0, "rc.fadd"], [1, "rop"], [1, "act.swap"], [1, "parent.lock"], [1, "pwake"], [0, "dop"],
+                       [0, "dop"], [0, "rc.fsub"], [0, "rc.fsub"], [1, "rop"], [1, "rc.fsub"], [1, "rop"], [2, "rop"]]}
+    tp2, sums2, _ = run_harness(wd, "good2", [stim2])
+    ok, rejects, _ = validate_trace(D, "Trace_FutureDeque", tp2, cfg="Trace_FutureDeque.cfg")
+    if not ok or sums2[0]["drift"] != 0:
+        fails.append("hand-written schedule: accepted=%s drift=%s %s" % (ok, sums2[0]["drift"], rejects))
+    recs = read_ndjson(tp2)
+    variant("remote-parent-wake-deleted", delete_pwake, "wake lost: parent")
+
+    def swap_wake_after_drop(rs):   # two events of different threads exchanged: the remote wake returns after the deque is gone
+        i = next(i for i, r in enumerate(rs) if r["ev"] == "pwake")
+        return rs[:i] + rs[i + 1:i + 2] + [rs[i]] + rs[i + 2:]
+    variant("wres-before-pwake", swap_wake_after_drop, "wake lost: parent")
+
+    # trace-level RC11: weakening the recorded ordering of one site must produce a race in the replayed step log
+    good_recs = read_ndjson(tp)
+    for site, (fld, k, wr, expect) in {"release_ref": ("rc", "fsub", None, "race:free"), "wake": ("act", "swap", 1, "race:data-read"),
+                                       "none": ("-", "-", None, None)}.items():
+        rr = [dict(r) for r in good_recs if r["ev"] != "reset"]
+        for x in rr:
+            if x["ev"] == "step" and x["fld"] == fld and x["k"] == k and (wr is None or x["wr"] == wr):
+                x["ord"] = "rlx"
+        path = os.path.join(wd, "rc11_%s.ndjson" % site)
+        write_ndjson(path, rc11_records(1, stim, rr))
+        ok2, rej, _ = validate_trace(D, "Trace_WakerRC11", path, cfg="Trace_WakerRC11.cfg", deque=False)
+        keys = [rc_why_key(r) for r in rej]
+        print("selftest trace-level RC11 %-12s -> rlx: %s" % (site, keys[:1] if keys else "accepted"))
+        if (expect is None) != ok2 or (expect and not any(expect in k2 for k2 in keys)):
+            fails.append("trace-level RC11 %s: expected %s, got %s" % (site, expect, keys))
 
     # seeded defects of the model: the exhaustive run has teeth
     for mut, c, expect in [("check_load_store", consts(2, 4, 2, 1, 1, mut="check_load_store"), "wake lost"),
@@ -558,7 +746,7 @@ def selftest():
                            ("push_front_at_back", consts(2, 3, 2, 1, 1, mut="push_front_at_back"), "order"),
                            ("early_free", consts(2, 3, 2, 1, 1, mut="early_free"), "metadata")]:
         r = explore(None, wd, "mut_" + mut, c)
-        whys = re.findall(r'why \|-> "([^"]*)"', r.cex or "")
+        whys = [w for w in re.findall(r'why \|-> "([^"]*)"', r.out or "") if w]
         good = r.violation is not None and whys and whys[-1].startswith(expect)
         print("selftest model defect %-20s -> %s %s (%d states)" % (mut, r.violation, whys[-1:] if whys else "", r.distinct))
         if not good:
